@@ -17,6 +17,11 @@ func (p *parser) parseMetricExpr() (MetricExpr, error) {
 }
 
 func (p *parser) parseMetricExpr1() (MetricExpr, error) {
+	if err := p.enter(); err != nil {
+		return nil, err
+	}
+	defer p.leave()
+
 	switch t := p.peek(); t.Type {
 	case lexer.OpenParen:
 		p.next()
@@ -71,6 +76,11 @@ func (p *parser) parseMetricExpr1() (MetricExpr, error) {
 }
 
 func (p *parser) parseBinOp(left MetricExpr, minPrecedence int) (MetricExpr, error) {
+	if err := p.enter(); err != nil {
+		return nil, err
+	}
+	defer p.leave()
+
 	for {
 		op, ok := p.peekBinOp()
 		if !ok || op.Precedence() < minPrecedence {
